@@ -3,14 +3,15 @@ import re
 from check import Property
 
 PASSWORDS = ["", "test", "test123", "pw161", "pw138", "correct horse battery staple", "p\u00e4ssw\u00f6rd", "\u5bc6\u7801", "a" * 1024,
-             "x", " ", "pw", "PW", "0", "00"]
+             "x", " ", "pw", "PW", "0", "00"] + ["L" * n for n in (31, 32, 33, 55, 56, 63, 64, 65, 111, 112, 127, 128, 129, 255, 256)]
 
 
 class C18(Property):
     id = "C18"
     rule = ("32-byte keys with every pattern of 0..4 leading zero bytes and random remainder, random keys, short keys, each printed with "
             "to_base62 and read back as public key, private key, key pair and through Crypto::new; passwords from a dictionary (empty, "
-            "unicode, 1 KiB, known leading-zero producers) each derived twice and in two node instances; "
+            "unicode, 1 KiB, known leading-zero producers, lengths around the hash block sizes 32/64/128) each derived twice and in two node "
+            "instances, and listed as a trusted key next to another key; "
             "non-trivial = distinct key with a leading zero byte, or distinct password")
     assumptions = ["PBKDF2 / Ed25519 (ring) are oracle functions in the model (kdf, pk_of); their determinism is exercised by deriving twice, not proved"]
 
@@ -42,7 +43,7 @@ class C18(Property):
         if line.startswith("keyrt"):
             z = (len(line.split()[1]) - len(line.split()[1].lstrip("0"))) // 2
             return "keyrt:zeros%d:%s" % (min(z, 5), "acc" if "pub=1 priv=1 pair=1 new=1" in impl_out else "REJ")
-        return "genkey:" + ("ok" if "same=1 printed=1 accepted=1 frompriv=1 trust=1" in impl_out else "BAD")
+        return "genkey:" + ("ok" if "same=1 printed=1 accepted=1 frompriv=1 trust=1 mixed=1" in impl_out else "BAD")
 
     def oracle(self, line, impl_out):
         if impl_out.startswith("panic"):
@@ -51,7 +52,7 @@ class C18(Property):
             if "pub=1 priv=1 pair=1 new=1" not in impl_out:
                 return "a key printed by key generation is not accepted back unchanged: " + impl_out.split(" ", 2)[2]
         else:
-            if "same=1 printed=1 accepted=1 frompriv=1 trust=1" not in impl_out:
+            if "same=1 printed=1 accepted=1 frompriv=1 trust=1 mixed=1" not in impl_out:
                 return "password-derived key pair not deterministic / not usable: " + impl_out
         return None
 
